@@ -38,20 +38,33 @@ try:
 finally:
     sh('git -C /repo worktree remove --force %s' % wt)
 print('confirmed=%s tests=%r demo(mut)=%s demo(clean)=%s' % (meta['confirmed'], meta['tests_with_patch'], meta['demo_with_patch_rc'], meta['demo_clean_rc']))
-# run our checks against /repo with the patch
-assert sh('git -C /repo status --porcelain')[1].strip() == '', '/repo not clean'
-rc, out = sh('git -C /repo apply %s' % patch)
+# run our checks against the patched tree: /repo itself (apply, check, undo), or -- with SEEDTEST_SCRATCH=1 -- a scratch worktree handed
+# to the checks through VERIF_REPO, so that /repo is left alone (used while something else is running against /repo)
+scratch = os.environ.get('SEEDTEST_SCRATCH') == '1'
+if scratch:
+    target = '/tmp/seedrepo_%s' % name
+    sh('git -C /repo worktree remove --force %s' % target)
+    sh('git -C /repo worktree add -q --detach %s HEAD' % target)
+    envp = 'VERIF_REPO=%s ' % target
+else:
+    target = '/repo'
+    envp = ''
+    assert sh('git -C /repo status --porcelain')[1].strip() == '', '/repo not clean'
+rc, out = sh('git -C %s apply %s' % (target, patch))
 try:
     meta['checks'] = {}
     for c in checks:
         t = time.time()
-        rc, out = sh('cd %s && ./check %s --tier quick' % (V, c))
+        rc, out = sh('cd %s && %s./check %s --tier quick' % (V, envp, c))
         lines = [l for l in out.split('\n') if l.startswith(('VIOLATION', 'KNOWN-FINDING')) or ' ok:' in l or ' FAIL:' in l]
         meta['checks'][c] = dict(exit=rc, lines=[l[:300] for l in lines], wall_s=round(time.time() - t, 1))
         meta['ran'].append('git -C /repo apply patch.diff; ./check %s --tier quick  -> exit %d' % (c, rc))
         print('  check %s -> exit %d  %s' % (c, rc, [l[:150] for l in lines if l.startswith('VIOLATION')]))
 finally:
-    sh('git -C /repo checkout -- .')
+    if scratch:
+        sh('git -C /repo worktree remove --force %s' % target)
+    else:
+        sh('git -C /repo checkout -- .')
 meta['detected_by'] = [c for c, r in meta['checks'].items() if r['exit'] != 0]
 dst = os.path.join(V, 'seeded', name)
 os.makedirs(dst, exist_ok=True)
